@@ -367,8 +367,10 @@ class DB:
             return self._cu[key]
         uses = defaultdict(list)
         src = self.fns.values() if not crates else [f for c in crates for f in self.by_crate[c]]
-        for f in src:
-            for bi, b in enumerate(f.blocks):
+        for f0 in src:
+            # uses inside promoted constants (`&CONST`, tables) are attributed to the function they belong to
+            f = self.fns.get(f0.root, f0) if f0.kind == "promoted" and f0.root else f0
+            for bi, b in enumerate(f0.blocks):
                 for s in b["s"]:
                     if s[0] != "a":
                         continue
